@@ -14,6 +14,15 @@ def check(run):
     cov['vacuity']['twin_violations'] = tv
     if tv == 0:
         raise Inconclusive('vacuity twin found nothing')
+    # Kani: the compiled Node::child (core's eq_ignore_ascii_case included) against a first-match reference, all names of <= 7 ASCII bytes
+    from .. import kani_run
+    k = kani_run.run_harnesses(['child_'], log=run.log)
+    cov['kani'] = {kk: k.get(kk) for kk in ('names', 'ok', 'failed', 'inconclusive', 'wall_s', 'solver_time_s', 'checks', 'covers')}
+    run.log(f"[kani] {k.get('names')}: ok={k.get('ok')} failed={k.get('failed')} ({k.get('wall_s')}s)")
+    if k.get('inconclusive'):
+        raise Inconclusive('Kani: ' + str(k['inconclusive'])[:600])
+    kani_viol = [{'rule': 'KANI', 'harness': h, 'what': f'Kani harness {h}: Node::child differs from the case-insensitive first-match reference for some name', 'input': '', 'device': 'T1',
+                  'role': 'KANI:' + h} for h in k.get('failed', [])]
     records = []
     done = {}
     Lmax = 10 if thorough else 8
@@ -52,10 +61,14 @@ def check(run):
                      'outside': 'declaration sets other than the corpus in devices.json (the macro runs inside rustc; its host code cannot be encoded, see DESIGN section 6) -- any change of the macro that alters a corpus tree is caught because the reference does not use the macro; headers longer than the free-form bound that are not near-misses of a declared spelling'}
     run.evidence['assumptions'] = ['reference: short form = declared text minus lower-case letters, long form = full text, optional nodes present or omitted, query mark as declared (mirsym/oracle.py expand_decl / ref_header)',
                                    'standard commands get the ids after the user commands in the order VERSion, ERRor[:NEXT], ERRor:COUNt and are observed through their responses']
-    return {'violations': [dict(v, property='C01') for _, v in sorted(viol.items())], 'exhaustive': True}
+    return {'violations': [dict(v, property='C01') for _, v in sorted(viol.items())] + kani_viol, 'exhaustive': True}
 
 
 def confirm(run, v):
+    if v['rule'] == 'KANI':
+        from .. import kani_run
+        ok, text = kani_run.playback(v['harness'])
+        return ok, {'concrete_playback': text}
     from ..oracle import RefTree, ref_header
     from ..world import load_devices
     tree = RefTree(load_devices()[v['device']])
